@@ -424,6 +424,15 @@ impl Server {
   }
 }
 
+#[cfg(feature = "verif-hooks")]
+impl Server {
+  /// Read-only view of the puncturable PRF held by this server, for
+  /// external verification machinery.
+  pub fn verif_pprf(&self) -> &GGM {
+    &self.pprf
+  }
+}
+
 // The `Client` struct is essentially a collection of static functions
 // for computing client-side operations in the PPOPRF protocol.
 pub struct Client {}
